@@ -3,6 +3,10 @@ namespace PyRates.Tables
 
 def histInitialCapacity : Nat := 1024
 def histGrowFactor : Nat := 2
+/-- the history read emitted for fixed-step solvers is `hist(t*dt - d)[idx]` (t = step counter scaled to time units) -/
+def histFixedStepScalesT : Bool := true
+/-- the history read emitted for adaptive solvers is `hist(t - d)[idx]` -/
+def histAdaptiveUsesT : Bool := true
 def heunCopiesRhs : Bool := true
 /-- BaseBackend.run builds `times` as np.arange(n)*step (true) or as linspace(0,T,n,endpoint=False)/unknown (false) -/
 def timeAxisIsArange : Bool := true
